@@ -2,8 +2,11 @@ package main
 
 import (
 	"fmt"
+	"regexp"
+	"regexp/syntax"
 	"strconv"
 	"strings"
+	"sync"
 
 	"sigs.k8s.io/kustomize/kyaml/utils"
 	kyaml "sigs.k8s.io/kustomize/kyaml/yaml"
@@ -33,7 +36,7 @@ type apiSpec struct {
 }
 
 var apiOps = map[string]bool{
-	"elemmatch": true, "elemset": true, "elemappend": true, "fieldmatch": true, "fieldclear": true, "teeset": true,
+	"elemmatch": true, "elemset": true, "elemappend": true, "fieldmatch": true, "fieldmatchre": true, "fieldclear": true, "teeset": true,
 	"setlabel": true, "setannotation": true, "setk8smeta": true,
 	"fields": true, "visitfields": true, "elements": true, "elementvalues": true, "mapfieldtext": true, "field": true,
 	"getfieldvalue": true, "getstring": true, "getslice": true,
@@ -129,6 +132,8 @@ func execAPI14(doc *kyaml.RNode, c case14) (cls string, found *kyaml.RNode, obs 
 				fm.Value = kyaml.NewScalarRNode(a.ValueStr)
 			}
 			return piped(fm)
+		case "fieldmatchre":
+			return piped(kyaml.FieldMatcher{Name: a.Name, StringRegexValue: a.ValueStr})
 		case "fieldclear":
 			return piped(kyaml.FieldClearer{Name: a.Name, IfEmpty: a.IfEmpty})
 		case "teeset":
@@ -314,6 +319,17 @@ func (a *apiSpec) coqOp(op string) (string, bool) {
 	case "fieldmatch":
 		cr, ok := coqOptNodeSpec(a.Create)
 		return fmt.Sprintf("(OFieldMatch %s %s %s)", coqStr(a.Name), optStr(a.HasValue, a.ValueStr), cr), ok
+	case "fieldmatchre":
+		// the compiled expression travels with the case (regexp/syntax tree -> KV.Base.Regex term)
+		cre := "None"
+		if re, err := syntax.Parse(a.ValueStr, syntax.Perl); err == nil {
+			t, ok := c10Re(re.Simplify())
+			if !ok {
+				return "", false
+			}
+			cre = "(Some " + t + ")"
+		}
+		return fmt.Sprintf("(OFieldMatchRe %s %s)", coqStr(a.Name), cre), true
 	case "fieldclear":
 		return fmt.Sprintf("(OFieldClear %s %s)", coqStr(a.Name), coqBool(a.IfEmpty)), true
 	case "teeset":
@@ -549,7 +565,7 @@ func genAPICase14(g *Rng) case14 {
 		}
 		return g.Pick([]string{"name", "a", "b", ""}), g.Pick([]string{"x", "y", "z", "1", ""})
 	}
-	ops := []string{"elemmatch", "elemmatch", "elemset", "elemset", "elemset", "elemappend", "fieldmatch", "fieldmatch", "fieldclear", "teeset",
+	ops := []string{"elemmatch", "elemmatch", "elemset", "elemset", "elemset", "elemappend", "fieldmatch", "fieldmatch", "fieldmatchre", "fieldclear", "teeset",
 		"setlabel", "setannotation", "setk8smeta", "fields", "visitfields", "elements", "elementvalues", "mapfieldtext", "field",
 		"getfieldvalue", "getfieldvalue", "getstring", "getslice", "rawfield", "rawmapfieldvalue", "rawfields",
 		"pathsplit", "pathsplit", "pathsplitc", "smartsplit", "smartsplit"}
@@ -612,6 +628,27 @@ func genAPICase14(g *Rng) case14 {
 		}
 		if g.Chance(35) {
 			a.Create = pickV(g, c14Values)
+		}
+	case "fieldmatchre":
+		// the expression is searched in the Value of a scalar (Name empty); with a Name it is ignored
+		all := []seqAt{}
+		collectAll14(root, nil, &all)
+		sc := []seqAt{}
+		for _, x := range all {
+			if x.seq.kind == 0 {
+				sc = append(sc, x)
+			}
+		}
+		c.Path = genPathGuided14(g, root, 3)
+		txt := "x"
+		if len(sc) > 0 && !g.Chance(15) {
+			x := sc[g.Intn(len(sc))]
+			c.Path, txt = x.path, strings.Trim(x.seq.text, `"`)
+		}
+		a.ValueStr = g.Pick([]string{txt, "^" + txt + "$", "^(?:" + txt + ")$", "x", "^x", "y$", "[xy]", "^[0-9]+$", "tr.e", "a|x|1", "x*", "(", "[a", "x{2}", "^$", "."})
+		if g.Chance(15) {
+			a.Name = g.Pick(c14Keys)
+			pickMap()
 		}
 	case "fieldclear":
 		m := pickMap()
@@ -776,6 +813,12 @@ func lawsAPI14(s sink, c case14, d *docCtx14) (string, bool) {
 		return cls, false
 	}
 	checkWellFormed14(s, c, cls, doc)
+	if cls == ClsOk && (c.Op == "fieldclear" || c.Op == "elemset" || c.Op == "elemappend" || c.Op == "teeset" || c.Op == "fieldmatch") {
+		d2 := d.ref.Copy()
+		if cls2, _, _, _ := execAPI14(d2, c); cls2 == ClsOk {
+			lawCopyIndependent14(s, c, d2, c.Path)
+		}
+	}
 	_, at, _ := lookupOn(d.orig, c.Path) // the node the filter is applied to (in the original)
 	switch c.Op {
 	case "elemmatch":
@@ -1024,13 +1067,92 @@ func hasDupKeysTop14(y *kyaml.Node) bool {
 
 // lawPM14: lookup_pm_agree on the implementation: for a path of plain field names, Lookup and PathMatcher (no Create)
 // find the same node, or both nothing, or both fail.
-func lawPM14(s sink, c case14, d *docCtx14) {
-	for _, p := range c.Path {
-		if !plainPart14(p) {
-			return
-		}
+// comm14 = MatchAgreeProofs.comm: plain names, indices in range (never on a null node), selectors [k=v] on a field
+// whose regular expression is faithful to string equality on the list at hand and which at most one element answers to
+var reCache14 sync.Map // expression -> *regexp.Regexp (nil: does not compile)
+
+func comm14(path []string, n *kyaml.Node) bool {
+	if len(path) == 0 {
+		return true
 	}
-	s.Count("law_domain", "lookup-pathmatcher-agree")
+	p, rest := path[0], path[1:]
+	if p != strings.TrimSpace(p) || p == "" {
+		return false
+	}
+	pt := classify14(p)
+	switch pt.kind {
+	case pkKey:
+		if n.Kind == kyaml.MappingNode {
+			for i := 0; i+1 < len(n.Content); i += 2 {
+				if n.Content[i].Value == p {
+					return comm14(rest, n.Content[i+1])
+				}
+			}
+		}
+		return true
+	case pkIdx:
+		if n.Kind == kyaml.SequenceNode {
+			return pt.idx < len(n.Content) && comm14(rest, n.Content[pt.idx])
+		}
+		return n.Tag != kyaml.NodeTagNull
+	case pkSel:
+		if pt.nm == "" {
+			return false
+		}
+		if n.Kind != kyaml.SequenceNode {
+			return true
+		}
+		var re *regexp.Regexp
+		if c, ok := reCache14.Load(pt.val); ok {
+			re, _ = c.(*regexp.Regexp)
+		} else {
+			re, _ = regexp.Compile(pt.val)
+			reCache14.Store(pt.val, re)
+		}
+		if re == nil {
+			return false
+		}
+		var first *kyaml.Node
+		count := 0
+		for _, e := range n.Content {
+			if e.Kind != kyaml.MappingNode {
+				continue
+			}
+			for i := 0; i+1 < len(e.Content); i += 2 {
+				if e.Content[i].Value == pt.nm {
+					x := e.Content[i+1]
+					txt, err := kyaml.NewRNode(x).String()
+					if err != nil || re.MatchString(strings.TrimSpace(txt)) != (x.Value == pt.val) {
+						return false
+					}
+					if x.Value == pt.val {
+						count++
+						if first == nil {
+							first = e
+						}
+					}
+					break
+				}
+			}
+		}
+		return count <= 1 && (first == nil || comm14(rest, first))
+	}
+	return false
+}
+
+func lawPM14(s sink, c case14, d *docCtx14) {
+	if !comm14(c.Path, d.ref.YNode()) {
+		return
+	}
+	plain := true
+	for _, p := range c.Path {
+		plain = plain && plainPart14(p)
+	}
+	if plain {
+		s.Count("law_domain", "lookup-pathmatcher-agree")
+	} else {
+		s.Count("law_domain", "lookup-pathmatcher-agree-idx-sel")
+	}
 	cls, found, _ := lookupOn(d.orig, c.Path)
 	d2 := d.ref.Copy()
 	var res *kyaml.RNode
@@ -1109,4 +1231,56 @@ func lawSplit14(s sink, c case14, g *Rng) {
 		s.Violation(OracleViolation{Law: "path_splitter_roundtrip", Class: "C14/path_splitter_roundtrip",
 			Detail: fmt.Sprintf("PathSplitter(%q, %q) = %q, want %q", strings.Join(esc, d), d, got, parts), Replay: cc})
 	}
+}
+
+// ---------- documents with anchors, aliases and merge keys ----------
+// The model's node type has no alias constructor. Such documents enter the model after RNode.DeAnchor()
+// (modelled by w-c05: Yaml/Anchor.v, deanchor : anode -> res node, alias-free result); the same operation on the
+// document as written is run on the implementation only and counted as skipped (unrepresentable).
+
+var aliasDocs14 = []string{
+	"a: &x\n  name: x\n  b: 1\nb: *x\nc:\n  - *x\n  - name: y\n",
+	"base: &b\n  a: 1\n  b: 2\nc:\n  <<: *b\n  b: 3\nname: x\n",
+	"d1: &d1\n  a: 1\nd2: &d2\n  b: 2\nc:\n  <<: [*d1, *d2]\n  name: z\n",
+	"a: &s x\nb: *s\nc: [*s, y, *s]\n",
+	"l: &l\n  - name: x\n    a: 1\n  - name: y\nb: *l\nc:\n  name: *l\n",
+	"n1: &n1\n  a: 1\nn2: &n2\n  <<: *n1\n  b: 2\nc:\n  <<: *n2\n",
+	"a: &e {}\nb: *e\nc: &n null\nname: *n\n",
+	"a:\n  - &i\n    name: x\n  - *i\n  - name: y\n    b: *i\n",
+}
+
+func genAliasCase14(g *Rng, s sink) (case14, case14, bool) {
+	text := g.Pick(aliasDocs14)
+	ops := []string{"lookup", "lookup", "put", "clear", "putscalar", "lookupcreate"}
+	c := case14{Op: g.Pick(ops), Doc: text, Path: genPath14(g, 3)}
+	switch c.Op {
+	case "lookupcreate":
+		c.Kind = g.Pick([]string{"KScalar", "KMap", "KSeq"})
+	case "put":
+		c.Name = g.Pick(c14Keys)
+		v, v2 := c14Values[g.Intn(len(c14Values))], c14Values[g.Intn(len(c14Values))]
+		c.Value, c.Value2 = &v, &v2
+		c.Probes = genProbes14(g, append(append([]string{}, c.Path...), c.Name))
+	case "putscalar":
+		v := c14Values[g.Intn(len(c14Values))]
+		c.Value = &v
+	case "clear":
+		c.Name = g.Pick(c14Keys)
+	}
+	raw := c
+	doc, err := kyaml.Parse(text)
+	if err != nil {
+		return c, raw, false
+	}
+	cls, _ := protect14(func() error { return doc.DeAnchor() })
+	s.Count("deanchor", cls)
+	if cls != ClsOk {
+		return c, raw, false
+	}
+	t2, err := doc.String()
+	if err != nil {
+		return c, raw, false
+	}
+	c.Doc = t2
+	return c, raw, true
 }
